@@ -55,6 +55,10 @@ pub struct ForceHalt {
     pub at_step: u64,
     /// "stop" | "revert" | "halt"
     pub result: String,
+    /// set the result in `step` (before the instruction, which is then not executed and has
+    /// no `step_end`) instead of in `step_end`
+    #[serde(default)]
+    pub in_step: bool,
 }
 
 #[derive(Clone, Debug, Default)]
@@ -730,6 +734,20 @@ impl<DB: Database> Inspector<DB> for Monitor {
     fn step(&mut self, interp: &mut Interpreter, context: &mut EvmContext<DB>) {
         self.steps += 1;
         self.finalize_ended();
+        // ---- F3b, `step` variant: the frame is ended before this instruction runs
+        if let Some(fh) = &self.force_halt {
+            if fh.in_step && fh.at_step == self.tx_steps && self.pending.is_none() && !self.frames.is_empty() {
+                interp.instruction_result = match fh.result.as_str() {
+                    "stop" if interp.is_eof_init => InstructionResult::Revert,
+                    "stop" => InstructionResult::Stop,
+                    "revert" => InstructionResult::Revert,
+                    _ => InstructionResult::OutOfGas,
+                };
+                self.force_halt = None;
+                self.inc("fault.F3_frame_halted_from_step");
+                return;
+            }
+        }
         if self.pending.is_some() {
             self.viol("C29", "C29.step-bracket", &[("case", "step-without-step_end".into())], "step notification while the previous step has no step_end".into());
         }
@@ -952,7 +970,7 @@ impl<DB: Database> Inspector<DB> for Monitor {
         self.tx_steps += 1;
         if res == InstructionResult::Continue {
             if let Some(fh) = &self.force_halt {
-                if fh.at_step + 1 == self.tx_steps {
+                if !fh.in_step && fh.at_step + 1 == self.tx_steps {
                     interp.instruction_result = match fh.result.as_str() {
                         // (EOF init code cannot end in STOP - validation forbids it - so a frame
                         // that creates an EOF contract is made to revert instead)
